@@ -51,6 +51,8 @@ def generate(seed: int, tier: str = "quick") -> dict:
     tr = common.draw_transport(r_sch, wire_len, spans, kinds=("file", "file", "socket"))
     if tr["kind"] == "socket":
         cfg["bufsize"] = r_sch.choice(sched.BUFSIZES)
+    elif r_sch.random() < 0.12:
+        tr = {"kind": "bytesio"}
     elif r_sch.random() < 0.25:
         # a stream that hands out at most `cap` bytes per call: frames larger than the cap are
         # lost to "stream terminated" errors - under every mask alike
